@@ -366,4 +366,21 @@ def bigCmp (x y : Int) : BitVec 64 := BitVec.ofInt 64 (x - y).sign
 /-- `z.Lsh(x, n)`: `x << n` on a `*big.Int` is `x · 2ⁿ` (the sign is kept: big.Int shifts the magnitude) -/
 def bigLsh (x : Int) (n : Nat) : Int := x * 2 ^ n
 
+/-! ## stage 11: named types, closed interfaces -/
+
+/-- `fmt.Errorf("…%w…", …, err, …)` with `err` a local error variable in a function whose error carrier has an optional
+position: always a non-nil error; it wraps exactly what `err` wraps (the same variable name, the same offset), and for
+`err == nil` it is an error that wraps nothing (the name `""`, which is no error variable, no offset) -/
+def errWrapOpt (e : Option (String × Option (BitVec 64))) : Option (String × Option (BitVec 64)) :=
+  some (e.getD ("", none))
+
+example : errWrapOpt (some ("bech32.ErrInvalidChecksum", some 5#64)) = some ("bech32.ErrInvalidChecksum", some 5#64) := by decide
+example : errWrapOpt (some ("ErrInvalidPrefix", none)) = some ("ErrInvalidPrefix", none) := by decide
+example : errWrapOpt none = some ("", none) := by decide
+
+/-- the carrier of a value of a CLOSED interface type of the translated package (cmd/extract, loops_iface.go): `none` is
+the nil interface, `some (k, h)` a value of the `k`-th struct type of the package that implements the interface (in
+order of declaration) whose single array field holds the bytes `h` -/
+abbrev Iface := Option (Nat × List (BitVec 8))
+
 end Iota.Go
